@@ -51,7 +51,36 @@ def run(tier, replay=None):
     if tier != "quick":
         args.append("--all-scalars")
     C.run_vh(args, timeout=20000)
-    events, rej = C.validate_trace(out, "Trace_Normalize", "Trace_Normalize.cfg", tp, "C07", timeout=40000)
+    if tier == "quick":
+        events, rej = C.validate_trace(out, "Trace_Normalize", "Trace_Normalize.cfg", tp, "C07", timeout=40000)
+    else:
+        # the exhaustive sweep is validated run by run, several TLC processes at a time
+        from concurrent.futures import ThreadPoolExecutor
+        allev = C.read_ndjson(tp)
+        shards, order = {}, []
+        for e in allev:
+            if e["run"] not in shards:
+                shards[e["run"]] = []
+                order.append(e["run"])
+            shards[e["run"]].append(e)
+        groups = [order[i::8] for i in range(8)]
+
+        def work(k):
+            path = os.path.join(C.WORK, "traces", f"c07_{tier}_shard{k}.ndjson")
+            C.write_ndjson(path, [e for r in groups[k] for e in shards[r]])
+            o = C.Outcome(PID, tier)
+            o.dry = True
+            evs, rj = C.validate_trace(o, "Trace_Normalize", "Trace_Normalize.cfg", path, "C07", timeout=40000)
+            return path, rj
+        with ThreadPoolExecutor(max_workers=8) as ex:
+            results = list(ex.map(work, [k for k in range(8) if groups[k]]))
+        rej = 0
+        for path, rj in results:
+            if rj:      # report through the ordinary path (writes the replay files)
+                _, r2 = C.validate_trace(out, "Trace_Normalize", "Trace_Normalize.cfg", path, "C07", timeout=40000)
+                rej += r2
+        events = allev
+        out.cov["trace_events"] = out.cov.get("trace_events", 0) + len(allev)
     obs = [e for e in events if e["ev"] in ("norm", "prolonged", "yomigana")]
     out.cov["traces_validated_against_impl"] += len(obs)
     out.cov["evaluations"] += len(obs)
